@@ -566,6 +566,9 @@ def check_template_constancy(rep, rule):
         c, name = (m.cls if isinstance(m.cls, ClassInfo) else servers[0]), m.name
         if not name.startswith('to_') or name in ('to_dict', 'to_escaped_dict'):
             continue
+        if name in ('to_html', 'to_xml'):
+            # a serialiser that only hands the escaped mapping to a module-level function: the template is formatted there
+            m = markup_delegate(repo, m)[0]
         params = set(_param_names(m))
 
         def const_value(v):
@@ -854,6 +857,37 @@ def markup_methods(repo, fam):
     return out
 
 
+def markup_delegate(repo, m, raw_arg=False):
+    """(function whose body builds the markup, name that stands for the escaped mapping in it).  A serialiser that does
+    nothing but hand ``self.to_escaped_dict()`` to a module-level function of the analysed tree and return its result
+    (``return f(self.to_escaped_dict())``, the mapping possibly named first) is read in that function: its one parameter,
+    never re-bound there, *is* the escaped mapping.  Anything else: (m, None) -- the serialiser itself is read."""
+    body = [s_ for s_ in m.node.body if not (isinstance(s_, ast.Expr) and isinstance(s_.value, ast.Constant))]
+    rets = [s_ for s_ in body if isinstance(s_, ast.Return)]
+    if len(rets) != 1 or body[-1] is not rets[0] or rets[0].value is None:
+        return m, None
+    if not all(isinstance(s_, ast.Assign) and len(s_.targets) == 1 and isinstance(s_.targets[0], ast.Name) for s_ in body[:-1]):
+        return m, None
+    call = expand_expr(m, rets[0].value, rets[0])
+    if not (isinstance(call, ast.Call) and isinstance(call.func, ast.Name) and len(call.args) == 1 and not call.keywords
+            and not isinstance(call.args[0], ast.Starred) and (raw_arg or norm(call.args[0]) == 'self.to_escaped_dict()')):
+        return m, None
+    fname = call.func.id
+    if fname in _param_names(m) or _name_stores(m, fname):
+        return m, None
+    k, hm, h = repo.resolve(m.mod, fname)
+    if k != 'func' or hm is None or hm.external or getattr(h, 'cls', None) is not None:
+        return m, None
+    a = h.node.args
+    if isinstance(h.node, ast.AsyncFunctionDef) or a.vararg or a.kwarg or a.kwonlyargs or a.defaults or len(a.posonlyargs + a.args) != 1 \
+            or h.node.decorator_list:
+        return m, None
+    p = (a.posonlyargs + a.args)[0].arg
+    if _name_stores(h, p) or any(isinstance(n_, (ast.Global, ast.Nonlocal, ast.Yield, ast.YieldFrom)) for n_ in ast.walk(h.node)):
+        return m, None
+    return (h, p, call.args[0]) if raw_arg else (h, p)
+
+
 def check_markup_sinks(rep, repo, err, fam):
     sinks_seen = set()
     for m, servers in markup_methods(repo, fam):
@@ -871,19 +905,31 @@ def check_markup_sinks(rep, repo, err, fam):
             rep.ok('R09.c', fkey(m), 'renders shipped template(s) %s (escaping: R09.d)' % names, mmod, m.node)
             continue
         sinks_seen.add((id(m.node), None))
+        # the function that builds the markup: the serialiser, or the module-level function it hands the escaped mapping to
+        bm, ep = markup_delegate(repo, m)
+        if ep is None:
+            handed = markup_delegate(repo, m, raw_arg=True)
+            if handed[1] is not None and any(isinstance(n_, ast.Call) and isinstance(n_.func, ast.Attribute) and n_.func.attr in ('format', 'format_map')
+                                             for n_ in walk_body(handed[0].node)):
+                # the same delegation, but what is handed to the formatting function is not the escaped mapping
+                rep.check('R09.c', fkey(m), False, '%s.%s hands %s, not self.to_escaped_dict(), to %s, which formats the markup with it' %
+                          (c.name, name, short(handed[2], 60), handed[0].qualname), m.mod, handed[2])
+                continue
+        mmod = bm.mod
 
         # (A) format with the escaped dict
         def is_escaped_map(e, st):
-            return norm(expand_expr(m, e, st)) == 'self.to_escaped_dict()'
+            x = expand_expr(bm, e, st)
+            return (norm(x) == 'self.to_escaped_dict()' and ep is None) or (ep is not None and isinstance(x, ast.Name) and x.id == ep)
 
         def is_escaped_field(e, st):
             return isinstance(e, ast.Subscript) and isinstance(e.slice, ast.Constant) and is_escaped_map(e.value, st)
         sinks, bad = [], []
-        for n_ in walk_body(m.node):
+        for n_ in walk_body(bm.node):
             st = None
             is_fmt = (isinstance(n_, ast.Call) and isinstance(n_.func, ast.Attribute) and n_.func.attr in ('format', 'format_map')) or \
                 (isinstance(n_, ast.BinOp) and isinstance(n_.op, ast.Mod)) or isinstance(n_, ast.JoinedStr)
-            if is_fmt and inside_constant(repo, m, n_):
+            if is_fmt and inside_constant(repo, bm, n_):
                 # formatting of constants with constants (a template generated from a constant table of field
                 # names): template text, no field of the instance is interpolated here
                 continue
@@ -918,13 +964,14 @@ def check_markup_sinks(rep, repo, err, fam):
                   '%s.%s interpolates unescaped fields into markup: %s' % (c.name, name, [short(b) for b in bad]), mmod,
                   (bad or [m.node])[0])
         # no direct use of raw fields in the returned string
-        raw = [n_ for n_ in walk_body(m.node) if isinstance(n_, ast.Call) and norm(n_.func) == 'self.to_dict']
+        raw = [n_ for f_ in ([m] if bm is m else [m, bm]) for n_ in walk_body(f_.node) if isinstance(n_, ast.Call) and norm(n_.func) == 'self.to_dict']
         rep.check('R09.c', fkey(m, 'no raw dict'), not raw, 'the raw to_dict() is not used for markup' if not raw else
                   '%s.%s uses the unescaped to_dict()' % (c.name, name), mmod, raw[0] if raw else m.node)
         # the escaped mapping stays escaped: nothing is stored into it afterwards
-        evars = [s.targets[0].id for s in stmts_of(m.node) if isinstance(s, ast.Assign) and len(s.targets) == 1 and
-                 isinstance(s.targets[0], ast.Name) and norm(s.value) == 'self.to_escaped_dict()']
-        muts = [n_ for n_ in walk_body(m.node)
+        evars = [s.targets[0].id for s in stmts_of(bm.node) if isinstance(s, ast.Assign) and len(s.targets) == 1 and
+                 isinstance(s.targets[0], ast.Name) and (norm(s.value) == 'self.to_escaped_dict()' if ep is None else norm(s.value) == ep)]
+        evars += [ep] if ep is not None else []
+        muts = [n_ for n_ in walk_body(bm.node)
                 if (isinstance(n_, ast.Subscript) and isinstance(n_.ctx, (ast.Store, ast.Del)) and norm(n_.value) in evars) or
                 (isinstance(n_, ast.Call) and isinstance(n_.func, ast.Attribute) and norm(n_.func.value) in evars and
                  n_.func.attr in ('update', 'setdefault', '__setitem__'))]
@@ -972,6 +1019,7 @@ def check_attribute_quoting(rep, repo, fam):
     n = 0
     for m, servers in markup_methods(repo, fam):
         pieces, done = [], set()
+        sm, m = m, markup_delegate(repo, m)[0]
         for x in walk_body(m.node):
             if not ((isinstance(x, ast.Constant) and isinstance(x.value, str)) or
                     (isinstance(x, ast.Name) and isinstance(x.ctx, ast.Load) and x.id not in _param_names(m) and not _name_stores(m, x.id))):
@@ -1011,6 +1059,8 @@ def check_xml_template(rep, repo, fam):
     for m, servers in markup_methods(repo, fam):
         if m.name != 'to_xml':
             continue
+        cname = m.cls.name if isinstance(m.cls, ClassInfo) else '?'
+        m = markup_delegate(repo, m)[0]
         for c in walk_body(m.node):
             if not (isinstance(c, ast.Call) and isinstance(c.func, ast.Attribute) and c.func.attr in ('format', 'format_map')) or inside_constant(repo, m, c):
                 continue
@@ -1035,7 +1085,7 @@ def check_xml_template(rep, repo, fam):
                 ok, why = False, str(e)
             rep.check('R09.c', fkey(m, 'template is one XML element'), ok, 'the XML template is well formed' if ok else
                       'the template %s.to_xml fills is not a well-formed XML element (%s): every XML error body is rejected by an XML parser' %
-                      (m.cls.name if isinstance(m.cls, ClassInfo) else '?', why), m.mod, c)
+                      (cname, why), m.mod, c)
     if not n:
         rep.decline('well-formedness of the XML template: the template of to_xml is not a constant of the source')
 
@@ -1078,6 +1128,18 @@ def _instance_attr_written(repo, cls, attr):
 # ---------------------------------------------------------------------------------------------- R09.b helpers
 def _is_table(e):
     return isinstance(e, ast.Name) and e.id == TABLE
+
+
+def table_home(repo, err):
+    """The module that holds the one definition of the format table the errors module works with: the errors module
+    itself, or the module it imports the name from (``from ._formats import MIME_SUPPORT_MAP`` binds the same dict object
+    under the same name).  The errors module must not bind the name in a second way."""
+    k, hm, obj = repo.resolve(err, TABLE)
+    if k != 'value' or hm is None or hm.external:
+        raise AnalysisError('%s::%s does not resolve to one definition in the analysed tree (%s)' % (ERR, TABLE, k))
+    if hm is not err and (TABLE in err.assigns or TABLE in err.functions or TABLE in err.classes):
+        raise AnalysisError('%s::%s is imported and bound again in the errors module' % (ERR, TABLE))
+    return hm
 
 
 _NOTHING = object()
@@ -1353,7 +1415,7 @@ def negotiated_over_table(repo, err, mod, fi, expr, use_stmt, expanded=False):
     if owner is not None and (TABLE in _param_names(owner) or _name_stores(owner, TABLE)):
         return False
     k, m_, obj = repo.resolve(tm, TABLE)
-    return m_ is err and k == 'value'
+    return m_ is table_home(repo, err) and k == 'value'
 
 
 # ---------------------------------------------------------------------------------------------- R09.d helpers
@@ -2045,10 +2107,11 @@ def check_table_constant(rep, repo, err):
     """The format table the checks fold from its definition is the table the code sees at every request: no module of the
     tree stores into it, deletes from it, calls a mutating method on it or re-binds it after import."""
     bad = []
+    home = table_home(repo, err)
     for m in repo.all_internal_modules():
-        if m is not err:
+        if m is not err and m is not home:
             k, m_, obj = repo.resolve(m, TABLE)
-            if m_ is not err:
+            if m_ is not home:
                 continue
         for n in ast.walk(m.tree):
             hit = None
@@ -2334,7 +2397,8 @@ def rule_b(rep, repo, err, app, base):
         # per-function obligation above has already established which table is used
         rep.ok('R09.b', 'clastic.application::MIME_SUPPORT_MAP', 'application.py does not define a table of its own', app)
     else:
-        rep.check('R09.b', 'clastic.application::MIME_SUPPORT_MAP', m_ is err, 'default_render_error uses the errors module\'s table' if m_ is err else
+        same = m_ is table_home(repo, err) and k == 'value'
+        rep.check('R09.b', 'clastic.application::MIME_SUPPORT_MAP', same, 'default_render_error uses the errors module\'s table' if same else
                   'application.py uses a different MIME_SUPPORT_MAP', app)
     rep.floor('R09.b', 12)
 
